@@ -255,13 +255,14 @@ class Paths(Fetched):
         except (Exception, SystemExit) as e:  # noqa
             dump2 = c09.err_obs(e)
         self.side[key] = {"w": obj_sx(w), "o": self.orc.tables(), "p": self.cd.wire(w.extract())}
-        return {"p": ["ok", dump], "paths": canon(paths), "again": dump2, "tree_same": before == after, "missing": missing}
+        return {"p": ["ok", dump], "paths": canon(paths), "again": dump2, "tree_same": before == after, "missing": missing,
+                "wf": "1" if case["kind"] in ("nomult", "mult", "split") else "any"}
 
     def requests(self, case, o):
         s = self.side.get(json.dumps(case, sort_keys=True))
         if not s:
             return []
-        reqs = [("extract", [s["w"], s["o"]])]
+        reqs = [("extract", [s["w"], s["o"]]), ("extractwf", s["w"])]
         if "p" in s:
             reqs.append(("paths", s["p"]))
         return reqs
@@ -270,13 +271,20 @@ class Paths(Fetched):
         if not replies:
             return o
         r = model_res(replies[0], nowords_lines)
+        # Extract.extract_wf (hypothesis of ExtractTotal.extract_total): must hold of every fetch result of a well-formed
+        # master, and where it holds the implementation's extraction must not end in an internal error
+        wf = replies[1]
+        replies = [replies[0]] + list(replies[2:])
+        if wf == "1" and isinstance(o, dict) and o["p"][0] == "err" and o["p"][1].startswith("other:"):
+            return {"extract_wf-holds-but-implementation-raised": o["p"]}
         if r == "UNMODELLED":
             return r
         if len(replies) == 1:
             return {"p": r}
         # later extractions return what the (pure) model extracts from the unchanged tree
         again = r[1] if r[0] == "ok" else r
-        return {"p": r, "paths": replies[1], "again": again, "tree_same": o["tree_same"], "missing": o["missing"]}
+        return {"p": r, "paths": replies[1], "again": again, "tree_same": o["tree_same"], "missing": o["missing"],
+                "wf": wf if o.get("wf") == "1" else "any"}
 
     def prop(self, case, o):
         if not isinstance(o, dict) or "paths" not in o:
